@@ -97,7 +97,11 @@ def execute(make_world, chooser, trace=False):
                         menu.append((label, deliver))
                 for i, c in enumerate(w.callers):
                     if c.task is None and c.start_enabled(w):
-                        menu.append((f"start:{c.name}", (lambda c=c: _start(w, c))))
+                        item = (f"start:{c.name}", (lambda c=c: _start(w, c)))
+                        if getattr(w, "eager_start", False):
+                            menu.insert(0, item)      # default schedule: all callers are started back to back
+                        else:
+                            menu.append(item)
                         break              # callers start in list order
                 soft = []
                 for label, enabled, fire, kind in w.extra_events():
